@@ -6,6 +6,8 @@
 //!   emitter (`emit_struct`) on a declaration carrying `@derive(D1, D2, ...)` and prints the names
 //!   of the `#[derive(...)]` attribute of the emitted struct, in order, comma separated
 //!   (`serde::Serialize` -> `Serialize`), or `ERR <message>`.
+//! `vharness run c20 fields` — one line per case: `<source.incn>`. Same pipeline; prints `OK Name:f1,f2;...`: the field
+//!   names of every emitted struct in emission order (the order derived Ord/Serialize use), or `ERR <message>`.
 //! `vharness run c20 gen` — one line per case: `<source.incn>\t<out_dir>\t<project_name>`. Runs the
 //!   library pipeline of `incan build` (src/cli/commands.rs prepare_project, single-file branch) up
 //!   to and including `ProjectGenerator::generate`, i.e. writes Cargo.toml + src/main.rs, and prints
@@ -148,12 +150,43 @@ fn gen_case(line: &str) -> String {
     }
 }
 
+/// `<source.incn>` -> `Name:f1,f2;Name2:...` for every struct of the emitted Rust, fields in emission order
+fn fields_case(line: &str) -> String {
+    let source = match std::fs::read_to_string(line.trim()) {
+        Ok(s) => s,
+        Err(e) => return format!("ERR read: {}", e),
+    };
+    match catch(|| compile(&source)) {
+        Ok(Ok((code, _, _, _))) => match syn::parse_file(&code) {
+            Ok(file) => {
+                let mut out = Vec::new();
+                for item in &file.items {
+                    if let syn::Item::Struct(st) = item {
+                        let names: Vec<String> = st
+                            .fields
+                            .iter()
+                            .enumerate()
+                            .map(|(i, f)| f.ident.as_ref().map(|x| x.to_string()).unwrap_or_else(|| i.to_string()))
+                            .collect();
+                        out.push(format!("{}:{}", st.ident, names.join(",")));
+                    }
+                }
+                format!("OK {}", out.join(";"))
+            }
+            Err(e) => format!("ERR emitted Rust does not parse: {}", e),
+        },
+        Ok(Err(e)) => format!("ERR {}", e),
+        Err(p) => format!("ERR panic: {}", p),
+    }
+}
+
 pub fn run(args: &[String]) {
     match args.first().map(|s| s.as_str()).unwrap_or("") {
         "table" => each_line(table_case),
+        "fields" => each_line(fields_case),
         "gen" => each_line(gen_case),
         other => {
-            eprintln!("c20: unknown mode {:?} (table|gen)", other);
+            eprintln!("c20: unknown mode {:?} (table|gen|fields)", other);
             std::process::exit(2);
         }
     }
